@@ -10,7 +10,9 @@ export CARGO_NET_OFFLINE=true
 export LD_LIBRARY_PATH=$(python3 -c "import json;print(json.load(open(\"/verif/.cache/toolinfo.json\"))[\"sysroot_lib\"])")
 cargo build --offline --bins 2>&1 | tail -1
 demo=$sd/demo.sh
-bash $demo /verif/.cache/target/debug > /tmp/wt/$id.demo_orig.log 2>&1; o=$?
+# unchanged build: a private build of /repo HEAD (never the shared cache, which other runs may rebuild)
+U=/tmp/wt/ubuild; if [ ! -d /tmp/wt/urepo ]; then git -C /repo worktree add -q --detach /tmp/wt/urepo HEAD; fi; git -C /tmp/wt/urepo checkout -q --detach $(git -C /repo rev-parse HEAD); (cd /tmp/wt/urepo && CARGO_TARGET_DIR=$U cargo build --offline --bins 2>&1 | tail -1)
+bash $demo $U/debug > /tmp/wt/$id.demo_orig.log 2>&1; o=$?
 bash $demo $wt/target/debug > /tmp/wt/$id.demo_mut.log 2>&1; m=$?
 echo "demo on unchanged tree: exit $o ; demo on mutant: exit $m"
 cargo test --offline --no-fail-fast 2>&1 | grep -E "^test result|FAILED|failed" | head -20 > /tmp/wt/$id.tests.log
